@@ -1075,7 +1075,7 @@ Lemma in_cone_edges h a b :
   In (a, b) (cone_edges h) <->
   exists s o, In (s, o) h /\ (has_dep a b s = true \/ In (a, b) (link_edges s) \/ In (a, b) (decl_edges o)).
 Proof.
-  unfold cone_edges. rewrite in_flat_map. split.
+  unfold cone_edges, step_edges. rewrite in_flat_map. split.
   - intros [[s o] [Hin H]]. cbn [fst snd] in H. exists s, o. split; [exact Hin|].
     apply in_app_or in H. destruct H as [H|H]; [left; apply in_dep_edges; exact H|].
     apply in_app_or in H. tauto.
@@ -1102,7 +1102,7 @@ Qed.
 
 Lemma tcone_b_iff E G h k : tcone_b E G h k = true <-> tcone E G h k.
 Proof.
-  unfold tcone_b, tcone_keys. change (mem_key k) with (memb key_eqb k).
+  unfold tcone_b, tcone_keys, tcone_keys_e. change (mem_key k) with (memb key_eqb k).
   rewrite (closure_spec key_eqb key_eqb_eq (cone_edges h) (length (cone_edges h)) (cone_seeds E G) k (Nat.le_refl _)).
   split.
   - intros [a [Ha Hp]].
@@ -1128,23 +1128,42 @@ Proof.
       split; [exact Hin|]. right. right. cbn [decl_edges]. apply in_map_iff. exists f. auto.
 Qed.
 
-Lemma mem_cone E G h k : mem_key k (tcone_keys E G h) = true -> tcone E G h k.
-Proof. apply tcone_b_iff. Qed.
+(* a cone computed from a subset of the edges of the history is inside the cone *)
+Definition cone_sound (E G : list str) (h : list (st * op)) (cone : list key) : Prop :=
+  forall k, mem_key k cone = true -> tcone E G h k.
+
+Lemma tcone_keys_e_sound E G h edges : incl edges (cone_edges h) -> cone_sound E G h (tcone_keys_e E G edges).
+Proof.
+  intros Hi k H. apply tcone_b_iff. unfold tcone_b, tcone_keys, tcone_keys_e in *.
+  change (mem_key k) with (memb key_eqb k) in *.
+  apply (closure_sound key_eqb key_eqb_eq) in H. destruct H as [a [Ha Hp]].
+  apply (closure_spec key_eqb key_eqb_eq _ _ _ k (Nat.le_refl _)). exists a. split; [exact Ha|].
+  exact (path_incl _ _ _ _ Hi Hp).
+Qed.
+
+Lemma in_add_edges new : forall acc x, In x (add_edges new acc) -> In x new \/ In x acc.
+Proof.
+  unfold add_edges. induction new as [|e new IH]; intros acc x H; cbn [fold_left] in H; [right; exact H|].
+  apply IH in H. destruct H as [H|H]; [left; right; exact H|].
+  destruct (existsb (edge_eqb e) acc); [right; exact H|]. destruct H as [<-|H]; [left; left; reflexivity | right; exact H].
+Qed.
 
 Lemma in_flight_b_ok l s : in_flight_b l s = true -> in_flight l s.
 Proof. unfold in_flight_b, in_flight. destruct (sstate_of l s) as [[]|]; intros H; try discriminate; auto. Qed.
 Lemma is_running_b_ok l s : is_running_b l s = true -> is_running l s.
 Proof. unfold is_running_b, is_running. destruct (sstate_of l s) as [[]|]; intros H; try discriminate; auto. Qed.
 
-Lemma path_in_cone_b_ok E G h s p : path_in_cone_b (tcone_keys E G h) s p = true -> path_in_cone E G h s p.
+Lemma path_in_cone_b_ok E G h cone s p :
+  cone_sound E G h cone -> path_in_cone_b cone s p = true -> path_in_cone E G h s p.
 Proof.
-  unfold path_in_cone_b, path_in_cone. intros H. apply andb_true_iff in H. destruct H as [H1 H2].
+  intros mem_cone. unfold path_in_cone_b, path_in_cone. intros H. apply andb_true_iff in H. destruct H as [H1 H2].
   split; [apply mem_cone; exact H1|]. intros cr Hcr. rewrite Hcr in H2. apply mem_cone. exact H2.
 Qed.
 
-Lemma input_in_cone_b_ok E G h s l : input_in_cone_b (tcone_keys E G h) s l = true -> input_in_cone E G h s l.
+Lemma input_in_cone_b_ok E G h cone s l :
+  cone_sound E G h cone -> input_in_cone_b cone s l = true -> input_in_cone E G h s l.
 Proof.
-  unfold input_in_cone_b, input_in_cone. intros H. apply orb_true_iff in H. destruct H as [H|H].
+  intros mem_cone. unfold input_in_cone_b, input_in_cone. intros H. apply orb_true_iff in H. destruct H as [H|H].
   - apply orb_true_iff in H. destruct H as [H|H].
     + left. destruct (creator_of (KFile, l) s); [discriminate | discriminate H].
     + right. left. intros Hb. rewrite Hb in H. discriminate.
@@ -1154,8 +1173,12 @@ Qed.
 Lemma forallb_In {A} (p : A -> bool) l x : forallb p l = true -> In x l -> p x = true.
 Proof. intros H Hx. rewrite forallb_forall in H. exact (H x Hx). Qed.
 
-Lemma cone_op2_why_ok q E G h s o : cone_op2_why q E G h s o = 0 -> cone_op2 q E G h s o.
+Lemma cone_op2_why_ok q E G h cone s o :
+  cone_sound E G h cone -> cone_op2_why q E cone s o = 0 -> cone_op2 q E G h s o.
 Proof.
+  intros mem_cone.
+  pose proof (fun p => path_in_cone_b_ok E G h cone s p mem_cone) as path_ok'.
+  pose proof (fun l => input_in_cone_b_ok E G h cone s l mem_cone) as input_ok'.
   destruct o; cbn [cone_op2_why]; intros H; try discriminate H.
   - (* declare_static *)
     destruct creator as [[] c]; try discriminate H. destruct (is_running_b c s) eqn:Hr; [|discriminate H].
@@ -1166,17 +1189,17 @@ Proof.
       apply andb_true_iff in Hb. destruct Hb as [H1 H2]. apply c2_external; [|exact H2].
       intros ph Hph. apply mem_str_In. exact (forallb_In _ _ ph H1 Hph).
     + match type of H with (if ?b then _ else _) = _ => destruct b eqn:Hb end; [|discriminate H].
-      apply c2_confirm. intros ph Hph. apply path_in_cone_b_ok. exact (forallb_In _ _ ph Hb Hph).
+      apply c2_confirm. intros ph Hph. apply path_ok'. exact (forallb_In _ _ ph Hb Hph).
   - (* define_step *)
     destruct creator as [[] c]; try discriminate H. destruct (is_running_b c s) eqn:Hr; cbn [negb] in H; [|discriminate H].
     match type of H with (if ?b then _ else _) = _ => destruct b eqn:Hb end; [|discriminate H].
     apply c2_define; [apply is_running_b_ok; exact Hr|].
-    intros f Hf. apply input_in_cone_b_ok. exact (forallb_In _ _ f Hb Hf).
+    intros f Hf. apply input_ok'. exact (forallb_In _ _ f Hb Hf).
   - (* amend_step *)
     destruct (is_running_b label s) eqn:Hr; cbn [negb] in H; [|discriminate H].
     match type of H with (if ?b then _ else _) = _ => destruct b eqn:Hb end; [|discriminate H].
     apply c2_amend; [apply is_running_b_ok; exact Hr|].
-    intros f Hf. apply input_in_cone_b_ok. exact (forallb_In _ _ f Hb Hf).
+    intros f Hf. apply input_ok'. exact (forallb_In _ _ f Hb Hf).
   - (* dispatch *)
     destruct (dispatch_guard label s) eqn:Hg; cbn [negb] in H; [|discriminate H].
     match type of H with (if ?b then _ else _) = _ => destruct b eqn:Hb end; [|discriminate H].
@@ -1188,7 +1211,7 @@ Proof.
     destruct (in_flight_b label s) eqn:Hf; cbn [negb] in H; [|discriminate H].
     match type of H with (if ?b then _ else _) = _ => destruct b eqn:Hb end; [|discriminate H].
     apply c2_exec_end; [apply in_flight_b_ok; exact Hf|].
-    intros ph Hph. apply path_in_cone_b_ok. exact (forallb_In _ _ ph Hb Hph).
+    intros ph Hph. apply path_ok'. exact (forallb_In _ _ ph Hb Hph).
   - destruct (in_flight_b label s) eqn:Hf; [|discriminate H]. apply c2_reset_pending. apply in_flight_b_ok. exact Hf.
   - destruct (in_flight_b label s) eqn:Hf; [|discriminate H]. apply c2_validate. apply in_flight_b_ok. exact Hf.
   - match type of H with (if ?b then _ else _) = _ => destruct b eqn:Hb end; [|discriminate H].
@@ -1197,17 +1220,23 @@ Proof.
   - apply c2_release.
 Qed.
 
-Lemma cone_ops2_first_bad_ok q E G ops : forall i h s,
-  cone_ops2_first_bad q E G i h s ops = None -> cone_ops2 q E G h s ops.
+Lemma cone_ops2_first_bad_ok q E G ops : forall i edges h s,
+  incl edges (cone_edges h) ->
+  cone_ops2_first_bad q E G i edges s ops = None -> cone_ops2 q E G h s ops.
 Proof.
-  induction ops as [|o ops IH]; intros i h s H; cbn [cone_ops2_first_bad cone_ops2] in *; [exact I|].
-  destruct (cone_op2_why q E G ((s, o) :: h) s o) eqn:Hw; [|discriminate H].
-  split; [apply cone_op2_why_ok; exact Hw | exact (IH _ _ _ H)].
+  induction ops as [|o ops IH]; intros i edges h s Hi H; cbn [cone_ops2_first_bad cone_ops2] in *; [exact I|].
+  assert (Hi' : incl (add_edges (step_edges s o) edges) (cone_edges ((s, o) :: h))).
+  { intros x Hx. apply in_add_edges in Hx. unfold cone_edges. cbn [flat_map fst snd]. apply in_or_app.
+    destruct Hx as [Hx|Hx]; [left; exact Hx | right; apply Hi; exact Hx]. }
+  destruct (cone_op2_why q E (tcone_keys_e E G (add_edges (step_edges s o) edges)) s o) eqn:Hw; [|discriminate H].
+  split.
+  - apply (cone_op2_why_ok q E G _ _ s o (tcone_keys_e_sound E G _ _ Hi') Hw).
+  - exact (IH _ _ _ _ Hi' H).
 Qed.
 
 Lemma cone_ops2_b_ok q E G ops : cone_ops2_b q E G q ops = true -> cone_ops2 q E G [] q ops.
 Proof.
-  unfold cone_ops2_b. intros H. apply (cone_ops2_first_bad_ok q E G ops 0).
+  unfold cone_ops2_b. intros H. apply (cone_ops2_first_bad_ok q E G ops 0 []); [intros x []|].
   destruct (cone_ops2_first_bad q E G 0 [] q ops); [discriminate | reflexivity].
 Qed.
 
@@ -1341,3 +1370,47 @@ Module ExO.
     intros H. apply tcone_b_iff in H. destruct facts as [_ [_ [_ [_ [_ [_ [_ Hf]]]]]]]. congruence.
   Qed.
 End ExO.
+
+(* The full sentence (Definition C04_full, model/Noop.v) is false of the model: the witness is ExO. *)
+Theorem full_refuted : ~ C04_full.
+Proof.
+  intros HF.
+  assert (Hs : successful_history 3 ExO.hist) by exact (proj1 ExO.facts).
+  destruct (HF 3 ExO.hist Hs) as [_ [_ H3]].
+  change (run_xops ExO.hist (init_st 3)) with ExO.q in H3.
+  specialize (H3 [(ExO.p2_py, Some 12)] [] (tl ExO.ops)).
+  assert (Hst : forallb (fun ph : str * option N => match fstate_of (fst ph) ExO.q with
+                                                  | Some FConfirmed | Some FMissing => true | _ => false end)
+                        [(ExO.p2_py, Some 12)] = true) by (vm_compute; reflexivity).
+  specialize (H3 Hst). cbn zeta in H3.
+  assert (Hen : dispatch_enabled (tl ExO.ops)
+                  (run_ops (map (fun ph => OpUpdateHashes CExternal [ph]) [(ExO.p2_py, Some 12)] ++ map OpMarkStepPending []) ExO.q)).
+  { unfold ExO.ops. cbn [tl dispatch_enabled map app]. repeat split; vm_compute; reflexivity. }
+  specialize (H3 Hen ExO.u).
+  assert (Hex : In ExO.u (executed (tl ExO.ops)
+                  (run_ops (map (fun ph => OpUpdateHashes CExternal [ph]) [(ExO.p2_py, Some 12)] ++ map OpMarkStepPending []) ExO.q))).
+  { vm_compute. right. left. reflexivity. }
+  specialize (H3 Hex).
+  assert (Hexec : executed (tl ExO.ops)
+                    (run_ops (map (fun ph => OpUpdateHashes CExternal [ph]) [(ExO.p2_py, Some 12)] ++ map OpMarkStepPending []) ExO.q)
+                  = [ExO.plan2; ExO.u]) by (vm_compute; reflexivity).
+  rewrite Hexec in H3. clear Hexec Hex Hen.
+  set (s' := run_ops (tl ExO.ops) _) in H3.
+  (* u consumes nothing, before or after *)
+  assert (Hno : forall s0 f, deps s0 = deps ExO.q \/ s0 = s' -> consumes s0 ExO.u f -> False).
+  { intros s0 f Hs0 Hc. unfold consumes in Hc. apply has_dep_in in Hc. destruct Hc as [d [Hd [_ Hk]]].
+    destruct Hs0 as [Hs0|Hs0].
+    - rewrite Hs0 in Hd. vm_compute in Hd.
+      repeat (destruct Hd as [<-|Hd]; [discriminate Hk|]). exact Hd.
+    - subst s0. vm_compute in Hd.
+      repeat (destruct Hd as [<-|Hd]; [discriminate Hk|]). exact Hd. }
+  destruct H3 as [[f [_ Hc]] | [[] | [[l' [f [_ [_ [_ [Hc|Hc]]]]]] | [l' [Hin Hcr]]]]].
+  - exact (Hno ExO.q f (or_introl eq_refl) Hc).
+  - exact (Hno ExO.q f (or_introl eq_refl) Hc).
+  - exact (Hno s' f (or_intror eq_refl) Hc).
+  - assert (Hq : creator_of (KStep, ExO.u) ExO.q = Some (KStep, ExO.plan)) by (vm_compute; reflexivity).
+    assert (Hs' : creator_of (KStep, ExO.u) s' = Some (KStep, ExO.plan)) by (vm_compute; reflexivity).
+    rewrite Hq, Hs' in Hcr.
+    assert (Hl : l' = ExO.plan) by (destruct Hcr as [H|H]; injection H as <-; reflexivity).
+    subst l'. destruct Hin as [H|[H|[]]]; discriminate H.
+Qed.
